@@ -416,7 +416,12 @@ func (r *ComboRoute) route(fn func(string, ...Handler) *Route, method string, ha
 	}
 	r.added[method] = struct{}{}
 
-	r.lastRoute = fn(r.routePath, append(r.handlers, handlers...)...)
+	// Allocate a new slice to avoid handlers of different methods sharing (and
+	// overwriting) the spare capacity of "r.handlers".
+	hs := make([]Handler, 0, len(r.handlers)+len(handlers))
+	hs = append(hs, r.handlers...)
+	hs = append(hs, handlers...)
+	r.lastRoute = fn(r.routePath, hs...)
 	return r
 }
 
